@@ -16,6 +16,9 @@ use vh::{cli, Reporter, Tier};
 
 vh::use_jemalloc!();
 
+#[path = "c06_cluster/mod.rs"]
+mod cluster;
+
 const OPS: &[&str] = &[
     "SET k a", "SET k b", "SET k c NX", "SET k d XX", "SET k e EX 100", "SET k f GET", "DEL k", "INCR k", "INCRBY k 5", "APPEND k x", "GETSET k g",
     "HSET k f a", "HSET k f b g c", "HDEL k f", "HINCRBY k n 1", "SET k 1", "DEL k j", "SET j z",
@@ -440,6 +443,40 @@ fn main() {
                 }
             }
         }
+        if r["cluster_sweep"] == json!(true) {
+            let inst: Argv = r["command"].as_array().unwrap().iter().map(|t| resp::unescape(t.as_str().unwrap())).collect();
+            let seed = cluster::SWEEP_SEEDS.iter().position(|x| x.0 == r["key_holds"].as_str().unwrap()).unwrap();
+            match RT.with(|rt| rt.block_on(cluster::sweep_case(seed, &inst))).violation {
+                Some((sig, detail)) => {
+                    println!("{detail}");
+                    println!("VIOLATION property=C06 replay={} ({sig})", path.display());
+                    std::process::exit(1);
+                }
+                None => {
+                    println!("replay: no violation");
+                    std::process::exit(0);
+                }
+            }
+        }
+        if r["cluster"] == json!(true) {
+            let nodes = r["nodes"].as_u64().unwrap() as usize;
+            let ops: Vec<usize> = r["ops"].as_array().unwrap().iter().map(|x| x.as_u64().unwrap() as usize).collect();
+            let alpha = cluster::alphabet(nodes, &ops, r["max_msgs"].as_u64().unwrap() as usize);
+            let hist: Vec<u16> = r["history"].as_array().unwrap().iter().map(|x| x.as_u64().unwrap() as u16).collect();
+            let ev = r["event"].as_u64().unwrap() as u16;
+            let mode = cluster::Mode::parse(r["mode"].as_str().unwrap());
+            match RT.with(|rt| rt.block_on(cluster::run(mode, nodes, r["rf"].as_u64().unwrap() as usize, r["max_ops"].as_u64().unwrap() as usize, &alpha, &hist, ev))) {
+                Some(Err((sig, detail))) => {
+                    println!("{detail}");
+                    println!("VIOLATION property=C06 replay={} ({sig})", path.display());
+                    std::process::exit(1);
+                }
+                other => {
+                    println!("replay: no violation ({})", if other.is_none() { "event disabled" } else { "ok" });
+                    std::process::exit(0);
+                }
+            }
+        }
         let nodes = r["nodes"].as_u64().unwrap() as usize;
         let ops: Vec<usize> = r["ops"].as_array().unwrap().iter().map(|x| x.as_u64().unwrap() as usize).collect();
         let alpha = alphabet(nodes, &ops);
@@ -492,6 +529,79 @@ fn main() {
             "depth_completed": stats.depth_completed, "states": stats.states, "enabled_transitions": stats.transitions - dis,
             "violating_transitions": stats.pruned_transitions - dis, "truncated_by_time_cap": stats.truncated, "frontier_sizes": stats.frontier_sizes}));
     }
+    // ---- part (c): whole nodes exchanging real gossip messages ----
+    let cl_all: Vec<usize> = (0..cluster::CL_OPS.len()).collect();
+    let cl_core: Vec<usize> = vec![0, 2, 3, 4, 5, 6];
+    // (mode, nodes, rf, client ops, op subset, depth)
+    let cl_configs: Vec<(cluster::Mode, usize, usize, usize, Vec<usize>, usize)> = if thorough {
+        vec![
+            (cluster::Mode::Broadcast, 2, 2, 3, cl_all.clone(), 12),
+            (cluster::Mode::Broadcast, 3, 3, 2, cl_all.clone(), 12),
+            (cluster::Mode::Selective, 3, 2, 3, cl_core.clone(), 12),
+            (cluster::Mode::Selective, 3, 1, 2, cl_all.clone(), 10),
+            (cluster::Mode::Actor, 2, 2, 2, cl_all.clone(), 8),
+        ]
+    } else {
+        vec![
+            (cluster::Mode::Broadcast, 2, 2, 2, cl_all.clone(), 8),
+            (cluster::Mode::Selective, 3, 2, 2, cl_core.clone(), 8),
+            (cluster::Mode::Actor, 2, 2, 2, cl_core.clone(), 6),
+        ]
+    };
+    let mut cluster_reports = Vec::new();
+    for (mode, nodes, rf, max_ops, ops, depth) in &cl_configs {
+        let max_msgs = max_ops * (nodes - 1);
+        let alpha = cluster::alphabet(*nodes, ops, max_msgs);
+        let mut bfs = Bfs::new(alpha.len(), *depth);
+        bfs.deadline = Some(Instant::now() + Duration::from_secs(if thorough { 900 } else { 60 }));
+        let disabled = std::sync::atomic::AtomicU64::new(0);
+        let quiescent_states = std::sync::atomic::AtomicU64::new(0);
+        let stats = bfs.run("init", |hist, ev| match RT.with(|rt| rt.block_on(cluster::run(*mode, *nodes, *rf, *max_ops, &alpha, hist, ev))) {
+            None => {
+                disabled.fetch_add(1, std::sync::atomic::Ordering::Relaxed);
+                None
+            }
+            Some(Ok(fp)) => {
+                if fp.starts_with("Q|") {
+                    quiescent_states.fetch_add(1, std::sync::atomic::Ordering::Relaxed);
+                }
+                Some(fp)
+            }
+            Some(Err((sig, detail))) => {
+                rep.violation(sig, detail, json!({"cluster": true, "mode": mode.name(), "nodes": nodes, "rf": rf, "max_ops": max_ops, "ops": ops, "max_msgs": max_msgs, "history": hist, "event": ev,
+                    "shown": hist.iter().map(|h| cluster::show_ev(&alpha[*h as usize])).chain(std::iter::once(cluster::show_ev(&alpha[ev as usize]))).collect::<Vec<_>>()}));
+                None
+            }
+        });
+        let dis = disabled.load(std::sync::atomic::Ordering::Relaxed);
+        eprintln!(
+            "cluster mode={} nodes={nodes} rf={rf} client_ops<={max_ops} ops={} depth={} completed={} states={} enabled_transitions={} violating={} truncated={} ({:.1}s)",
+            mode.name(), ops.len(), depth, stats.depth_completed, stats.states, stats.transitions - dis, stats.pruned_transitions - dis, stats.truncated, rep.elapsed_s()
+        );
+        states += stats.states;
+        transitions += stats.transitions - dis;
+        if stats.truncated {
+            exhaustive = false;
+        }
+        cluster_reports.push(json!({"mode": mode.name(), "nodes": nodes, "replication_factor": rf, "client_ops_bound": max_ops, "op_alphabet": ops.iter().map(|o| cluster::CL_OPS[*o]).collect::<Vec<_>>(),
+            "depth_bound": depth, "depth_completed": stats.depth_completed, "states": stats.states, "enabled_transitions": stats.transitions - dis,
+            "violating_transitions": stats.pruned_transitions - dis, "truncated_by_time_cap": stats.truncated, "frontier_sizes": stats.frontier_sizes,
+            "transitions_into_quiescent_states_where_convergence_was_judged": quiescent_states.load(std::sync::atomic::Ordering::Relaxed)}));
+    }
+    // node-level command-set sweep
+    let cl_insts = sweep_instances();
+    let cl_items: Vec<(usize, usize)> = (0..cluster::SWEEP_SEEDS.len()).flat_map(|s| (0..cl_insts.len()).map(move |i| (s, i))).collect();
+    let cl_skipped = std::sync::atomic::AtomicU64::new(0);
+    vh::par::par_map(&cl_items, |_, (s, i)| {
+        let out = RT.with(|rt| rt.block_on(cluster::sweep_case(*s, &cl_insts[*i])));
+        if out.skipped_shard_level {
+            cl_skipped.fetch_add(1, std::sync::atomic::Ordering::Relaxed);
+        }
+        if let Some((sig, detail)) = out.violation {
+            rep.violation(sig, detail, json!({"cluster_sweep": true, "key_holds": cluster::SWEEP_SEEDS[*s].0, "command": cl_insts[*i].iter().map(|t| resp::esc(t)).collect::<Vec<_>>()}));
+        }
+    });
+    eprintln!("cluster sweep: {} cases, {} left to the shard-level sweep ({:.1}s)", cl_items.len(), cl_skipped.load(std::sync::atomic::Ordering::Relaxed), rep.elapsed_s());
     // command-set sweep on one node
     let insts = sweep_instances();
     let sweep_items: Vec<(usize, usize)> = (0..SWEEP_SEEDS.len()).flat_map(|s| (0..insts.len()).map(move |i| (s, i))).collect();
@@ -507,6 +617,13 @@ fn main() {
         "transitions": transitions,
         "traces_validated_against_impl": transitions,
         "configs": reports,
+        "node_level": {
+            "rule": "whole nodes: real ReplicatedShardedState (16 replicated shard actors each), the real gossip outbox (GossipState behind the lock, or GossipActor), for rf < n the real GossipRouter over a HashRing; a gossip round is one iteration of GossipManager::start_gossip_loop up to the TCP write (advance_epoch, queue_deltas(collect()) with collect() = [] as server_persistent wires it, drain_outbound, serialize, one copy per target); a delivery is what the gossip listener does (deserialize, into_deltas, apply_remote_deltas). BFS over {client command on any node, round of any node with a non-empty outbox, delivery of any in-flight message in any order, one re-delivery per message}. Oracle: in every state each node serves what its replication state says; in every state with all outboxes drained and all messages delivered, all nodes responsible for a key (all nodes, or the key's ring owners) read it alike",
+            "configs": cluster_reports,
+            "command_set_sweep": {"cases": cl_items.len(), "command_instances": cl_insts.len(), "left_to_shard_level_sweep": cl_skipped.load(std::sync::atomic::Ordering::Relaxed),
+                "key_states": cluster::SWEEP_SEEDS.iter().map(|x| x.0).collect::<Vec<_>>(),
+                "rule": "two-node cluster whose nodes agree on the seeded keys; node0 executes one command of the command set, runs a gossip round, node1 receives every message; both nodes must then read k and j alike (cases where node0 already serves something else than its own replication state are the shard-level sweep's findings and are not judged again)"},
+        },
         "samples": [["node0: SET k a", "node1: HSET k f a", "deliver delta#0 to node1", "deliver delta#1 to node0"], ["node0: SET k e EX 100", "node1: SET k a", "sync node0 -> node1", "sync node1 -> node0"]],
         "exhaustive": exhaustive,
         "rule": "BFS over events {client command on any node (18 commands on one key + a second key), delivery of any produced delta to any other node (any order), one re-delivery per (delta,node), one full-state sync per ordered node pair}; every state is reached by replaying its history on fresh real ReplicatedShardActors; in every state each node's client-visible reads (TYPE/GET/HGETALL/TTL) must equal the projection of its own replication snapshot; in states where every node has incorporated every produced delta all nodes must read alike, and for plain SET histories the agreed value is the write with the greatest (time, replica) stamp; states deduplicated on (per-node snapshot + reads, deltas, delivery/sync bookkeeping)",
